@@ -228,6 +228,37 @@ class MoneySys:
                                 f"{repr(back) if berr is None else type(berr).__name__}"
                                 f", most recent converter c{self.stack[-1]} "
                                 f"gives {want_back}"))
+        # quotients across currencies: the units divided as such (refused
+        # or not, it must leave nothing behind), then amounts
+        for f in (lambda: self.eur / self.usd,
+                  lambda: self.eur / Money(F(4), self.usd),
+                  lambda: Money(F(10), self.eur) / self.usd):
+            try:
+                f()
+            except Exception:
+                pass
+        try:
+            dq, derr = Money(F(10), self.eur) / Money(F(4), self.usd), None
+        except Exception as exc:
+            dq, derr = None, exc
+        if not self.stack:
+            if not isinstance(derr, quantity.UnitConversionError):
+                out.append(('C12:money:quotient-without-converter',
+                            "10 EUR / 4 USD with no active converter: "
+                            f"{type(derr).__name__ if derr else repr(dq)}"))
+        else:
+            # 4 USD are converted into EUR by the inverted rate, which is
+            # itself a rate in normal form (C09/C11)
+            from .c11 import stored_rate
+            want_q = F(10) / (F(4) * stored_rate(
+                1 / O.val(RATES[self.stack[-1]])))
+            if derr is not None or isinstance(dq, float) or \
+                    O.fr(dq) != want_q:
+                out.append(('C12:money:quotient-uses-most-recent',
+                            f"10 EUR / 4 USD = "
+                            f"{repr(dq) if derr is None else type(derr).__name__}"
+                            f", most recent converter c{self.stack[-1]} "
+                            f"gives {want_q}"))
         m = Money(F(10), self.eur)
         try:
             r, err = m.convert(self.usd), None
